@@ -869,8 +869,9 @@ pub fn steer(rng: &mut Rng, ins: &Instruction, bytes: &[u8], rip: u64, so: &Stee
         }
     } else if matches!(m, Mnemonic::Jmp | Mnemonic::Call) && ins.op_count() == 1 && ins.op0_kind() == OpKind::Register {
         let r = ins.op0_register();
-        if r.is_gpr64() && r != Register::RSP {
-            let tgt = canonical_target(rng);
+        if r.is_gpr64() {
+            // never a non-canonical target: Intel faults on the branch itself, AMD on the fetch
+            let tgt = if r == Register::RSP { STACK + 0x100 + 8 * rng.below(0x400) } else { canonical_target(rng) };
             set_view(&mut t.gpr, r, tgt);
         }
     }
